@@ -54,6 +54,9 @@ func (r *Recorder) Emit(ev Ev) {
 // End closes the current scenario with its end marker.
 func (r *Recorder) End() {
 	r.Emit(Ev{"ev": "end"})
+	r.mu.Lock()
+	r.w.Flush() // a crash of the code under test must not lose the scenarios recorded so far
+	r.mu.Unlock()
 }
 
 func (r *Recorder) Close() error {
